@@ -79,6 +79,16 @@ def linear_population(rng, thorough=False):
         yield 'ComponentProjection/list/' + n, lambda sp=sp: odl.ComponentProjection(sp ** 3, [2, 0])
         yield 'ComponentProjection/pspace-array-weighted/' + n, lambda psw=psw: odl.ComponentProjection(psw, 1)
         yield 'ComponentProjection.adjoint/' + n, lambda ps=ps: odl.ComponentProjection(ps, 1).adjoint
+        # the index kinds an Integral / slice / list contract admits, on weighted product spaces
+        psw3 = odl.ProductSpace(sp, 3, weighting=[0.5, 2.0, 3.0])
+        pss = odl.ProductSpace(sp, 2, weighting=2.5)
+        yield 'ComponentProjection/np-int64/pspace-array-weighted/' + n, lambda psw=psw: odl.ComponentProjection(psw, np.int64(0))
+        yield 'ComponentProjection/np-intp/pspace-scalar-weighted/' + n, lambda pss=pss: odl.ComponentProjection(pss, np.intp(1))
+        yield 'ComponentProjection/np-int32.adjoint/pspace-array-weighted/' + n, lambda psw3=psw3: odl.ComponentProjection(psw3, np.int32(2)).adjoint
+        yield 'ComponentProjection/negative-int/pspace-array-weighted/' + n, lambda psw3=psw3: odl.ComponentProjection(psw3, -1)
+        yield 'ComponentProjection/slice/pspace-array-weighted/' + n, lambda psw3=psw3: odl.ComponentProjection(psw3, slice(1, None))
+        yield 'ComponentProjection/np-int-list/pspace-array-weighted/' + n, lambda psw3=psw3: odl.ComponentProjection(psw3, [np.int64(2), np.int64(0)])
+        yield 'ComponentProjection/int/pspace-scalar-weighted/' + n, lambda pss=pss: odl.ComponentProjection(pss, 0)
         yield 'BroadcastOperator/' + n, lambda sp=sp, sc=sc: odl.BroadcastOperator(odl.ScalingOperator(sp, sc), odl.IdentityOperator(sp))
         yield 'BroadcastOperator/single/' + n, lambda sp=sp: odl.BroadcastOperator(odl.MultiplyOperator(rel(sp, rng)))
         yield 'BroadcastOperator/int/' + n, lambda sp=sp: odl.BroadcastOperator(odl.MultiplyOperator(rel(sp, rng)), 3)
